@@ -18,6 +18,8 @@
 // be used: the generator (tools/components/router.py) only emits `unsub`/`inval` for handles whose node still
 // exists; `inval` on a destroyed observer is additionally refused here (`!gone`) through a destructor registry.
 #include "rt_common.h"
+#define VERIF_PAINT_NEW 1
+#include "../painted.h"
 
 // ---------------------------------------------------------------- keys
 // a level name may contain the character '/' itself (level names are arbitrary strings); on the wire, where '/' separates the
@@ -67,6 +69,7 @@ int main() {
     std::unique_ptr<ISession> session;
     std::string line;
     while (std::getline(std::cin, line)) {
+        verif::paintLine(line);   // painted `new` (harness/painted.h)
         std::istringstream is(line);
         std::vector<std::string> t;
         std::string w;
